@@ -1847,6 +1847,7 @@ func runC14(args []string) {
 	}
 	g.summaryCanonical()
 	g.repostSameName()
+	g.manyLabels(70)
 	for i := 0; i < nhist; i++ {
 		g.summaryHistory(i, 3+g.p.intn(4), 0.2)
 	}
